@@ -286,6 +286,11 @@ def chk_codec(case):
         p = lib(p2p.parse_ping_payload, b[1]) if b[0] == "ok" else b
         if p != ("ok", {"nonce": case["nonce"]}) or len(b[1]) != 8:
             out.append(("C17/codec/ping/nonce", f"nonce {case['nonce']}: built {b}, parsed {p}"))
+        else:
+            # a parsed result must not change when something else is parsed later (shared result objects)
+            other = lib(p2p.parse_ping_payload, ((case["nonce"] + 1) % 2 ** 64).to_bytes(8, "little"))
+            if p[1] != {"nonce": case["nonce"]} or (other[0] == "ok" and other[1] is p[1]):
+                out.append(("C17/codec/ping/aliased-result", f"the result of parsing nonce {case['nonce']} changed after parsing another ping: {p[1]}"))
     elif t == "getheaders":
         n = case["count"]
         hashes = [((i * 2654435761 + 12345) % 2 ** 256).to_bytes(32, "little") for i in range(1, n + 1)]
@@ -323,6 +328,10 @@ def chk_codec(case):
         exp = [{"type_id": tid.upper(), "hash": h.hex()} for h in hashes]
         if p[1].get("inventory") != exp:
             out.append(("C17/codec/inv/inventory", f"count={n} type={tid}: parsed {str(p[1].get('inventory'))[:160]}"))
+        else:
+            lib(p2p.parse_inv_payload, b"\x01" + (1).to_bytes(4, "little") + bytes(32))
+            if p[1].get("inventory") != exp or p[1].get("count") != n:
+                out.append(("C17/codec/inv/aliased-result", f"the parsed inv (count={n}) changed after parsing another inv payload"))
     elif t == "addr":
         n = case["count"]
         items = [(case["time"] + i, ((i + 1) % 2 ** 64).to_bytes(8, "little"),
